@@ -7,7 +7,7 @@
    (parse_function_source, the body parser, the source printer, the name store). *)
 From Coq Require Import String List ZArith Bool.
 Require Import Blots.Num Blots.gen.Builtins Blots.Ast Blots.Value Blots.Outcome Blots.Json.
-Require Import Blots.proofs.ValueInd Blots.proofs.JsonMaps Blots.proofs.JsonRT.
+Require Import Blots.proofs.ValueInd Blots.proofs.JsonMaps Blots.proofs.JsonRT Blots.proofs.JsonEcho.
 Import ListNotations.
 
 (* to_value (from_value v) = v structurally (numbers bit for bit, strings and keys byte for byte,
@@ -45,6 +45,89 @@ Check C06_value_roundtrip : forall pfs pbody emit nameof v,
     v' = vsort v /\ equals v' v = true /\ same_data v' v = true.
 Print Assumptions C06_value_roundtrip.
 
+(* the same through the CLI's own wrappers (write_outputs, serde_json's map builder,
+   parse_json_inputs): a second run reading the first run's output sees inputs.<name> .== and
+   bit/byte-identical to the value the first run output *)
+Theorem C06_cli_out_in : forall pfs pbody emit nameof v name,
+  json_data v = true -> value_no_reserved pfs v = true ->
+  cli_out_in pfs pbody emit nameof v name = Ok (vsort v)
+  /\ equals (vsort v) v = true /\ same_data (vsort v) v = true.
+Proof. exact cli_out_in_roundtrip. Qed.
+Check C06_cli_out_in : forall pfs pbody emit nameof v name,
+  json_data v = true -> value_no_reserved pfs v = true ->
+  cli_out_in pfs pbody emit nameof v name = Ok (vsort v)
+  /\ equals (vsort v) v = true /\ same_data (vsort v) v = true.
+Print Assumptions C06_cli_out_in.
+
+(* input_echo: a supplied document (any member order, duplicate keys allowed), read as an input
+   and written as an output, is the canonical form of the document, hence equal to it as a JSON
+   value with numbers compared as doubles.  The reserved object form is set aside by the
+   decidable predicate json_no_reserved, as the property text does. *)
+Theorem C06_input_echo : forall pfs pbody emit nameof d,
+  json_nums_ok d = true -> json_no_reserved pfs (sj_build d) = true ->
+  (do v <- to_value pbody (from_json pfs (sj_build d)); do s <- from_value emit nameof v; Ok (to_json s))
+  = Ok (jcanon d)
+  /\ json_equiv (jcanon d) d.
+Proof. exact input_echo. Qed.
+Check C06_input_echo : forall pfs pbody emit nameof d,
+  json_nums_ok d = true -> json_no_reserved pfs (sj_build d) = true ->
+  (do v <- to_value pbody (from_json pfs (sj_build d)); do s <- from_value emit nameof v; Ok (to_json s))
+  = Ok (jcanon d)
+  /\ json_equiv (jcanon d) d.
+Print Assumptions C06_input_echo.
+
+(* json_equiv (equality of canonical forms) implies JSON value equality in the relational
+   reading: numbers by their doubles, arrays position by position, objects as finite maps in
+   which the last binding of a key counts and order does not *)
+Theorem C06_json_equiv_is_value_equality : forall a b, json_equiv a b -> jeq a b.
+Proof. exact json_equiv_jeq. Qed.
+Check C06_json_equiv_is_value_equality : forall a b, json_equiv a b -> jeq a b.
+Print Assumptions C06_json_equiv_is_value_equality.
+
+(* `blots -i <document> 'output <name> = inputs.<key>'` *)
+Theorem C06_cli_echo_object : forall pfs pbody emit nameof m key name x,
+  json_nums_ok (JObj m) = true ->
+  forallb (fun kv => json_no_reserved pfs (sj_build (snd kv))) m = true ->
+  jlookup m key = Some x ->
+  cli_echo pfs pbody emit nameof (JObj m) key name = Ok (JObj [(name, jcanon x)]).
+Proof. exact cli_echo_object. Qed.
+Check C06_cli_echo_object : forall pfs pbody emit nameof m key name x,
+  json_nums_ok (JObj m) = true ->
+  forallb (fun kv => json_no_reserved pfs (sj_build (snd kv))) m = true ->
+  jlookup m key = Some x ->
+  cli_echo pfs pbody emit nameof (JObj m) key name = Ok (JObj [(name, jcanon x)]).
+Print Assumptions C06_cli_echo_object.
+
+Theorem C06_cli_echo_non_object : forall pfs pbody emit nameof d name,
+  (forall m, d <> JObj m) ->
+  json_nums_ok d = true -> json_no_reserved pfs (sj_build d) = true ->
+  cli_echo pfs pbody emit nameof d "value_1" name = Ok (JObj [(name, jcanon d)]).
+Proof. exact cli_echo_non_object. Qed.
+Check C06_cli_echo_non_object : forall pfs pbody emit nameof d name,
+  (forall m, d <> JObj m) ->
+  json_nums_ok d = true -> json_no_reserved pfs (sj_build d) = true ->
+  cli_echo pfs pbody emit nameof d "value_1" name = Ok (JObj [(name, jcanon d)]).
+Print Assumptions C06_cli_echo_non_object.
+
+(* ---- refutations: what the exclusions exclude (known findings C06-F16) ---- *)
+(* by the letter of the property's first sentence a record is data whatever its keys; the
+   record {"__blots_function": "sum"} is written as ordinary JSON and read back as the built-in
+   function sum, which is not .== to the record *)
+Lemma C06_reserved_form_builtin_refuted : forall pfs pbody emit nameof,
+  let v := VRec [("__blots_function"%string, VStr "sum")] in
+  json_data v = true /\
+  exists b, (do s <- from_value emit nameof v; to_value pbody (from_json pfs (to_json s))) = Ok (VBuiltin b)
+            /\ equals (VBuiltin b) v = false.
+Proof. exact reserved_form_builtin_refuted. Qed.
+Lemma C06_reserved_form_refuted : forall pfs pbody emit nameof body_ast,
+  pfs "(y) => y"%string = Some ([AReq "y"], "y"%string) -> pbody "y"%string = Ok body_ast ->
+  let v := VRec [("__blots_function"%string, VStr "(y) => y")] in
+  json_data v = true /\
+  (do s <- from_value emit nameof v; to_value pbody (from_json pfs (to_json s)))
+  = Ok (VLam O [AReq "y"] body_ast []) /\
+  equals (VLam O [AReq "y"] body_ast []) v = false.
+Proof. exact reserved_form_refuted. Qed.
+
 (* ---- non-vacuity ---- *)
 Open Scope string_scope.
 Definition one := nb 0x3ff0000000000000.
@@ -58,3 +141,16 @@ Example ex_roundtrip :
   = Ok (VRec [("a", VRec [("", VBool true); ("1", VNum one)]);
               ("b", VList [VNum negzero; VStr "x""y"; VNull])]).
 Proof. vm_compute. reflexivity. Qed.
+Definition ex_doc : json :=
+  JObj [("k", JNum (JPosInt 9007199254740993)); ("a", JArr [JNum (JNegInt (-1)); JStr "s"]);
+        ("k", JObj [("z", JNull); ("y", JNum (JFloat negzero)); ("z", JBool false)])].
+Example ex_doc_ok : json_nums_ok ex_doc = true /\ json_no_reserved no_fn (sj_build ex_doc) = true.
+Proof. vm_compute. split; reflexivity. Qed.
+Example ex_doc_echo :
+  (do v <- to_value no_body (from_json no_fn (sj_build ex_doc)); do s <- from_value no_emit no_name v; Ok (to_json s))
+  = Ok (JObj [("a", JArr [JNum (JFloat (nb 0xbff0000000000000)); JStr "s"]);
+              ("k", JObj [("y", JNum (JFloat negzero)); ("z", JBool false)])]).
+Proof. vm_compute. reflexivity. Qed.
+Example ex_nums_ok_extremes :
+  jnum_ok (JPosInt (2 ^ 64 - 1)) = true /\ jnum_ok (JNegInt (- 2 ^ 63)) = true.
+Proof. vm_compute. split; reflexivity. Qed.
